@@ -22,7 +22,7 @@ RULE = ("seeded simple graphs without isolated vertices: clustered graphs (union
         "vertices (thorough ..14) G(n,p) at several densities, "
         "planted overlapping cliques (cliques sharing an edge / a vertex, chains of triangles), complete graphs, arbitrary "
         "non-contiguous integer labels, scheduler-chosen edge insertion order and orientation, built by add_edge or "
-        "add_edges_from; m0 in 2..6 (below, at, above the clique number); tie-break schedules uniform/first/last/"
+        "add_edges_from, the size bound set after all edges, before any edge or in the middle of the build; m0 in 2..6 (below, at, above the clique number); tie-break schedules uniform/first/last/"
         "sticky/mix; the iteration order of the library's hash sets (unspecified by the language) natural / reversed / rotated / "
         "shuffled by the scheduler; aborts at a chosen decision then a fresh object; non-trivial = graph has >= 2 edges; distinct = "
         "distinct execution digests; run indexes 1000-2251 walk through EVERY graph with an edge on up to 7 vertices (graph atlas); thorough tier only: one clique of 1420-1500 vertices (a million edges) sharing an edge "
@@ -148,17 +148,25 @@ def generate(prng, tier, index):
           "set_order": prng.choice(("natural", "natural", "reversed", "rotated", "shuffled", "shuffled"))}
     if variant == "faults":
         sc["abort_at"] = prng.choice((0, 0, 0, 1, 1, 2, 3))
+    sc["m0_at"] = prng.choice(("last", "last", "first", "middle"))       # when set_max_clique_size is called during the build
     return sc
 
 
 def build(sc):
+    """The call ORDER is part of the scenario: the size bound is set after all edges (the documented order), before any
+    edge, or in the middle of the build."""
     g = EECC()
-    if sc.get("build") == "add_edges_from":
-        g.add_edges_from([tuple(e) for e in sc["edges"]])
-    else:
-        for e in sc["edges"]:
-            g.add_edge(tuple(e))
-    g.set_max_clique_size(sc["m0"])
+    es = [tuple(e) for e in sc["edges"]]
+    at = {"first": 0, "middle": len(es) // 2}.get(sc.get("m0_at"), len(es))
+    for part, last in ((es[:at], False), (es[at:], True)):
+        if part:
+            if sc.get("build") == "add_edges_from":
+                g.add_edges_from(part)
+            else:
+                for e in part:
+                    g.add_edge(e)
+        if not last:
+            g.set_max_clique_size(sc["m0"])
     return g
 
 
